@@ -8,7 +8,7 @@ export CARGO_NET_OFFLINE=true
 T="--target-dir $wt/target"
 with=$(cargo test --workspace --no-fail-fast --offline $T 2>&1 | awk '/^test result/ {p+=$4; f+=$6} END {print p "p/" f "f"}')
 demo_with=$(cargo test --offline $T --test seeded_demo 2>&1 | awk '/^test result/ {print $4 "p/" $6 "f"}')
-git stash push -q -- src
+git diff -- src > /tmp/.confirm_$id.patch && git apply -R /tmp/.confirm_$id.patch
 demo_without=$(cargo test --offline $T --test seeded_demo 2>&1 | awk '/^test result/ {print $4 "p/" $6 "f"}')
-git stash pop -q
+git apply /tmp/.confirm_$id.patch && rm -f /tmp/.confirm_$id.patch
 echo "$id: suite_with_change(incl demo)=$with demo_with_change=$demo_with demo_without_change=$demo_without"
